@@ -23,7 +23,7 @@ func init() {
 	expectedProbes["C14"] = []string{"c14.modify_fail_at_k", "c14.drop_family_with_data", "c14.recreate_table", "c14.drop_prefix_hit", "c14.deleted_table_request", "restart", "c14.concurrent_creates", "c14.overlapping_admin_ops", "c14.porcupine_ok", "c14.bulk_load", "c14.thousands_of_rows"}
 }
 
-var c14Parents = []string{"projects/p/instances/i1", "projects/p/instances/i2", "projects/p/instances/i10"} // i1 is a string prefix of i10
+var c14Parents = []string{"projects/p/instances/i1", "projects/p/instances/i2", "projects/p/instances/i10", "projects/p/instances/i1/tables/t"} // i1 is a string prefix of i10; the last one is a table name used as a parent
 var c14IDs = []string{"t", "t2", "u", "t.v2", "t.deleted", "t.table.proto"}                                 // "t.v2": the id of another table plus a dot and a suffix (file names on disk are derived from ids)
 var c14Prefixes = []string{"a", "a\x00", "ab", "a\xff", "\xff", "zz", "b", "\x00", "a\x00\x00"}
 var c14Fams = []string{"f1", "f2", "g"}
@@ -76,7 +76,7 @@ func makeC14GenMix(r *Run, mix int) func(d *draws, m *btModel, i int) btOp {
 					fams[c14Fams[k]] = g
 				}
 			}
-			p, id := c14Parents[d.w(3, 1, 2)], c14IDs[d.w(6, 4, 2, 2, 1, 1)]
+			p, id := c14Parents[d.w(9, 3, 6, 1)], c14IDs[d.w(6, 4, 2, 2, 1, 1)]
 			if deleted[p+"/tables/"+id] {
 				r.Probe("c14.recreate_table")
 			}
